@@ -257,6 +257,10 @@ type c14Member struct {
 	Group string `json:"group"`
 }
 
+// keys written by the membership instances of earlier cases of this process (the node is shared; an instance's last heart-beat
+// may still be on its way when the next case has begun)
+var c14EarlierKeys = map[string]bool{}
+
 func c14ExecMember(sc c14Member) string {
 	e := lbShared(1, 64, 0)
 	e.cfg.Dcp.Group.Name = sc.Group
@@ -281,8 +285,18 @@ func c14ExecMember(sc c14Member) string {
 		time.Sleep(25 * time.Millisecond)
 	}
 	n := 0
+	defer func() {
+		for _, en := range e.c.Log() {
+			if isKVWrite(en.Cmd) {
+				c14EarlierKeys[en.Key] = true
+			}
+		}
+	}()
 	for _, en := range e.c.Log() {
 		if isKVWrite(en.Cmd) {
+			if c14EarlierKeys[en.Key] {
+				continue // a last write of an earlier case's instance (its own document, on the shared node), not of this one
+			}
 			n++
 			if !strings.HasPrefix(en.Key, reservedPrefix+sc.Group+":instance:") {
 				return fmt.Sprintf("membership wrote key %q outside %q", en.Key, reservedPrefix+sc.Group+":instance:")
